@@ -36,6 +36,9 @@ SPEC = {
                       "ownership scenarios; after every release the heap is recycled with same-size arrays so that a stale view reads wrong also "
                       "without a sanitizer. (4') FixedArray2D a[mask]=array1d (full, compressed, wrong lengths), ifelse(mask, scalar) values. "
                       "(5') memoryview of a masked reference with a sparse mask and of a component view of one. "
+                      "(4'') FixedVArray size helper THROUGH a masked reference w = v[mask] (every mask of every V-array of the scope): w.size[ix] reads and every store form "
+                      "(scalar, IntArray of right and wrong length, mask + scalar, mask + IntArray) for every integer -k-1..k, every forward slice and every 0/1 mask of the view's length k, "
+                      "against the list of the selected rows; read-only twin. "
                       "(5b) every ...ArrayFromBuffer constructor x sources strided along their FIRST dimension only (rows skipped or reversed, each row dense): all 55 distinct "
                       "selections [a:b:s], s in +-1,+-2,+-3, of a 6-row 1-D / (6,W) buffer of every element type and of every exporting imath array class: the call raises or "
                       "returns exactly the selected rows; dense selections of the right type must be copied.",
